@@ -991,16 +991,18 @@ def stripWs (s : Str) : Str := (s.dropWhile isPyWs).reverse.dropWhile isPyWs |>.
 def normCtype (h : Option Str) : Str :=
   lowerAscii (stripWs ((h.getD []).takeWhile (· != ';')))
 
-def tyDispatchRet (t : PyTy) : RetKind :=
+/-- one arm of the dispatch: `bytes` -> `response.content`; `str` under a media type whose lower-cased name does not contain
+    `json` -> `response.text`; everything else (a `str` of a JSON media type included, repaired F69) as for a single type -/
+def tyDispatchRet (k : Str) (t : PyTy) : RetKind :=
   if t = .bytes then .content
-  else if t = .str then .text
+  else if t = .str ∧ isInfix "json".toList (lowerAscii k) = false then .text
   else tyRet t
 
 /-- `_write_content_type_conditional_handling`: `if`/`elif` on all but the last entry, `else` for the last. -/
 def unionDispatch (ct : Str) : List (Str × PyTy) → RetKind
   | [] => .none
-  | [(_, t)] => tyDispatchRet t
-  | (k, t) :: rest => if ct = lowerAscii k then tyDispatchRet t else unionDispatch ct rest
+  | [(k, t)] => tyDispatchRet k t
+  | (k, t) :: rest => if ct = lowerAscii k then tyDispatchRet k t else unionDispatch ct rest
 
 def strategyRet (s : Strategy) (r : Reply) : RetKind :=
   match s with
